@@ -20,7 +20,9 @@ def main(n=3000, seed=0):
     days += [dt.date(y, 12, 31) for y in range(1899, 2101)] + [dt.date(y, 1, 1) for y in range(1899, 2101)]
     days += [dt.date(y, 2, 29) for y in range(1900, 2101) if (y % 4 == 0 and (y % 100 or y % 400 == 0))]
     days += [dt.date(y, 3, 1) for y in range(1899, 2101)]
-    for d in days:
+    for mode in (None, (1898, 2102)):
+      sd.YEAR_RANGE = mode
+      for d in days:
         o = d.toordinal(); y, j = d.year, d.timetuple().tm_yday
         for mk in (lambda v: v, lambda v: symx.SymInt(z3.IntVal(v))):
             ry, rj = sd.ord2yj(mk(o))
@@ -30,6 +32,7 @@ def main(n=3000, seed=0):
             if (ev(m_), ev(d_)) != (d.month, d.day): bad += 1; print('yj2md', d, ev(m_), ev(d_))
             t = sd.datetime(mk(y), mk(d.month), mk(d.day), 13, 7, 9)
             if ev(t.us) != sd.instant_us(y, d.month, d.day, 13, 7, 9): bad += 1; print('instant', d)
+    sd.YEAR_RANGE = None
     # timedelta rounding (half-even) vs CPython on exactly representable floats
     for _ in range(2000):
         x = rng.randrange(-10**9, 10**9) / 2.0   # half microseconds
